@@ -758,7 +758,25 @@ func (s *Sim) byzProposal(t *rapid.T, up []int) {
 	h, r := cs.Height, cs.Round
 	// candidate: reuse or make a new one (possibly invalid)
 	var c *Cand
-	if len(s.Cands[h]) > 0 && rapid.IntRange(0, 2).Draw(t, "reuse") == 0 {
+	if s.AllowInvalidProposals && h > 1 && rapid.IntRange(0, 5).Draw(t, "stale") == 0 {
+		// a block that was a perfectly good proposal at an EARLIER height (the nodes may have validated it then),
+		// proposed again now with a correct signature for this height and round
+		var olds []*Cand
+		for oh := uint64(1); oh < h; oh++ {
+			for _, oc := range s.Cands[oh] {
+				if oc.Valid {
+					olds = append(olds, oc)
+				}
+			}
+		}
+		if len(olds) > 0 {
+			c = olds[rapid.IntRange(0, len(olds)-1).Draw(t, "stalec")]
+			s.Stat["byz-proposal-stale"]++
+		}
+	}
+	if c != nil {
+		// chosen above
+	} else if len(s.Cands[h]) > 0 && rapid.IntRange(0, 2).Draw(t, "reuse") == 0 {
 		c = s.Cands[h][rapid.IntRange(0, len(s.Cands[h])-1).Draw(t, "pc")]
 	} else {
 		inv := ""
@@ -796,7 +814,7 @@ func (s *Sim) byzProposal(t *rapid.T, up []int) {
 		s.DrainOwn(j)
 	}
 	s.Stat["byz-proposal"]++
-	if !c.Valid {
+	if !c.Valid || c.Height != h {
 		s.Stat["byz-proposal-invalid"]++
 	}
 	if partial {
